@@ -538,6 +538,9 @@ func c08ShapeRows() []c08ShapeRow {
 }
 
 func genC08(ctx *Ctx) error {
+	if err := genFieldRules(ctx); err != nil {
+		return err
+	}
 	trs := c08TypeRows()
 	frs, err := c08FieldRows()
 	if err != nil {
